@@ -30,6 +30,10 @@ pub fn check(tier: Tier) -> Check {
     parts.push(Part::new("C11/near-wrap", json!({"depth": tier.pick(4, 5), "m": 13, "refusals": true, "worker": true}), 0, tier.pick(30, 600)));
     parts.push(Part::new("C11/near-wrap", json!({"depth": tier.pick(4, 5), "r": 1, "refusals": true, "worker": true}), 1, tier.pick(30, 600)));
     parts.push(Part::new("C11/near-wrap", json!({"depth": tier.pick(4, 6), "worker": true}), 0, tier.pick(30, 600)));
+    // one Context, two connections, an operation of the first still outstanding on the second
+    for fl in [5u64, 6, 7] {
+        parts.push(Part::new("C11/near-wrap", json!({"depth": tier.pick(4, 5), "flavour": fl, "refusals": true}), 0, tier.pick(30, 600)));
+    }
     parts.push(Part::new("C11/hook-validate", json!({}), 0, 120));
     parts.push(Part::new("C11/loom", json!({"thorough": tier == Tier::Thorough}), 0, 600));
     Check {
@@ -195,12 +199,16 @@ pub fn scenario(name: &str, params: &Value) -> Scenario {
         if let Some(m) = params["m"].as_u64() {
             cprops.push(pvcore::refcodec::Prop::u32(pvcore::refcodec::P_MAXIMUM_PACKET_SIZE, m as u32));
         }
-        sys.bring_up(cprops);
+        sys.bring_up_fl(cprops, params["flavour"].as_u64().unwrap_or(0));
         let refusals = params["refusals"].as_bool().unwrap_or(false);
-        let pid0 = if refusals { [1u16, 65534][chz.choose(2)] } else { [65533u16, 65534, 65535][chz.choose(3)] };
+        let flavoured = params["flavour"].as_u64().is_some();
+        let pid0 = if flavoured { 0 } else if refusals { [1u16, 65534][chz.choose(2)] } else { [65533u16, 65534, 65535][chz.choose(3)] };
         let sub0 = if refusals { 1 } else { [1u32, 127, 268_435_454][chz.choose(3)] };
-        sys.events.push(format!("PresetCounters(packet_id={}, sub_id={})", pid0, sub0));
-        sys.w.handle().verif_set_ids(pid0, sub0);
+        if !flavoured {
+            // (on a second connection the counters are left where the first connection took them)
+            sys.events.push(format!("PresetCounters(packet_id={}, sub_id={})", pid0, sub0));
+            sys.w.handle().verif_set_ids(pid0, sub0);
+        }
         let specs = vec![
             OpSpec::Publish(PublishSpec::simple(1, "t/a", b"one")),
             OpSpec::Publish(PublishSpec::simple(2, "t/b", b"two")),
